@@ -5,7 +5,7 @@ HERE = os.path.dirname(os.path.dirname(os.path.abspath(__file__)))
 props = [json.loads(l) for l in open(os.path.join(HERE, "properties.jsonl"))]
 # property -> (technique, level text, level note, DESIGN section)
 T = {
- "C09": ("Hypothesis-generated configurations on uniquely labelled arrays (C/Fortran/strided/negative-stride layouts) vs closed index-formula oracle (exact equality); finite sub-domains (1-D lengths, block triples, every in-range down/upsample shift) enumerated completely",
+ "C09": ("Hypothesis-generated configurations on uniquely labelled arrays (C/Fortran/strided/negative-stride layouts) vs closed index-formula oracle (exact equality); finite sub-domains (1-D lengths, block triples, every in-range down/upsample shift) enumerated completely; empty axes subsets; one long axis; integer dtypes; first call repeated after its result was overwritten",
          "Generated search over shapes/shifts/factors/block geometry in 1-3(+batch) dims with an index-exact oracle: every generated configuration's whole index map is decided by one call. No proof of absence beyond the sizes explored (axes <= 12).",
          "Trusts numpy indexing and the harness's loop oracle; CPU backend only; sizes bounded as stated in evidence.rule."),
 }
